@@ -5,8 +5,10 @@ package main
 
 import (
 	"bufio"
+	"bytes"
 	"crypto/cipher"
 	"encoding/json"
+	"fmt"
 	"os"
 
 	"github.com/tjfoc/gmsm/sm4"
@@ -105,6 +107,25 @@ func c05vec(args []string) error {
 			blk.Encrypt(e, src)
 			blk.Decrypt(d, src)
 			got = map[string]interface{}{"enc": ints(e), "dec": ints(d)}
+			// source and destination as neighbouring, non-overlapping blocks of ONE array with spare capacity behind them (the
+			// way a mode of operation walks a buffer), in both orders, and exactly the same block (in place)
+			func() {
+				defer func() {
+					if p := recover(); p != nil {
+						got = map[string]interface{}{"error": fmt.Sprint("panic with source and destination in one array: ", p)}
+					}
+				}()
+				arr := make([]byte, 64)
+				copy(arr[16:32], src)
+				blk.Encrypt(arr[32:48], arr[16:32])
+				blk.Encrypt(arr[0:16], arr[16:32])
+				blk.Decrypt(arr[48:64], arr[16:32])
+				inpl := append(make([]byte, 0, 40), src...)
+				blk.Encrypt(inpl, inpl)
+				if !bytes.Equal(arr[32:48], e) || !bytes.Equal(arr[0:16], e) || !bytes.Equal(arr[48:64], d) || !bytes.Equal(inpl, e) || !bytes.Equal(arr[16:32], src) {
+					got = map[string]interface{}{"error": "another result with source and destination in one array"}
+				}
+			}()
 		case "keylen":
 			n := int(c["n"].(float64))
 			key := make([]byte, n)
